@@ -128,9 +128,16 @@ func c20One(r *rt.Rec, text string, memo bool, chanSize, bulk int) {
 		if streaming(calls[k-1].Method) {
 			afters = []int{0, 1, 2}
 		}
+		if streaming(calls[k-1].Method) {
+			afters = append(afters, -1) // deliver one element, close the channel, return the error late
+		}
 		for _, after := range afters {
-			fs, st := mk(fault.Plan{K: k, After: after})
-			desc := fmt.Sprintf("[%s k=%d/%d %s after=%d chan=%d bulk=%d] %s", variant, k, len(calls), calls[k-1].Method, after, chanSize, bulk, text)
+			plan := fault.Plan{K: k, After: after}
+			if after < 0 {
+				plan = fault.Plan{K: k, After: 1, Late: true}
+			}
+			fs, st := mk(plan)
+			desc := fmt.Sprintf("[%s k=%d/%d %s after=%d late=%v chan=%d bulk=%d] %s", variant, k, len(calls), calls[k-1].Method, plan.After, plan.Late, chanSize, bulk, text)
 			r.Begin(desc)
 			r.Eval(1)
 			before := rt.Snapshot()
@@ -143,7 +150,7 @@ func c20One(r *rt.Rec, text string, memo bool, chanSize, bulk int) {
 			el := time.Since(start)
 			fired := fs.Fired()
 			w := func() map[string]interface{} {
-				m := map[string]interface{}{"statement": text, "store": variant, "failing_call": k, "calls_in_clean_run": len(calls), "deliver_before_failing": after, "chan_size": chanSize, "bulk_size": bulk}
+				m := map[string]interface{}{"statement": text, "store": variant, "failing_call": k, "calls_in_clean_run": len(calls), "deliver_before_failing": plan.After, "late_return": plan.Late, "chan_size": chanSize, "bulk_size": bulk}
 				if fired != nil {
 					m["failed_method"] = fired.Method
 					m["failed_graph"] = fired.Graph
@@ -204,7 +211,7 @@ func init() {
 	register(&rt.Check{
 		ID:    "C20",
 		Level: "fault_enumeration",
-		Rule: "a corpus of statements that exercises every driver entry point (Exist, each of the eight lookups behind simpleFetch, Triples with clause-level filtering, per-row specialisation, OPTIONAL, Graph resolution in Init, INSERT/DELETE into 1-3 graphs, CONSTRUCT/DECONSTRUCT with and without reification at bulk sizes 1/2/1000, CREATE/DROP, SHOW GRAPHS; thorough adds generated statements) run over a fault-injecting storage.Store/Graph written in the harness; per statement a clean run records its N driver calls, then every position k<=N x mode {fail before any element, fail after 1, after 2 elements (lookups), fail on write / Graph / Exist} is executed, directly and with the memoizer stacked in between; " +
+		Rule: "a corpus of statements that exercises every driver entry point (Exist, each of the eight lookups behind simpleFetch, Triples with clause-level filtering, per-row specialisation, OPTIONAL, Graph resolution in Init, INSERT/DELETE into 1-3 graphs, CONSTRUCT/DECONSTRUCT with and without reification at bulk sizes 1/2/1000, CREATE/DROP, SHOW GRAPHS; thorough adds generated statements) run over a fault-injecting storage.Store/Graph written in the harness; per statement a clean run records its N driver calls, then every position k<=N x mode {fail before any element, fail after 1, after 2 elements, after 1 element with the error returned some time after the channel was closed (lookups), fail on write / Graph / Exist} is executed, directly and with the memoizer stacked in between; " +
 			"oracle: if the planned fault fired, Execute returns an error (not a table, not (nil,nil)), returns within the watchdog, and no goroutine started for it survives; a fault that did not fire is inconclusive; non-trivial = the fault fired after an earlier successful call or after >=1 delivered element; distinct by (statement, store, k, mode)",
 		Assume: []string{"the injecting wrapper behaves like a well-formed driver: it closes the channel exactly once and then returns the error", "bounded time = the per-case watchdog (all-blocked rule, 120 s hard)"},
 		Floor:  200,
